@@ -20,7 +20,7 @@ Check(name, c) == IF c THEN TRUE ELSE (Diag /\ PrintT(<<"FAILCLAUSE", tid, l, na
 
 TInit == /\ tid \in 1..Len(Traces) /\ l = 1
          /\ InitWith([n |-> Traces[tid].cfg.n, E |-> Traces[tid].cfg.E, N |-> Traces[tid].cfg.N,
-                      gexp |-> Traces[tid].cfg.gexp])
+                      gexp |-> Traces[tid].cfg.gexp, gnum |-> Traces[tid].cfg.gnum, gden |-> Traces[tid].cfg.gden])
 
 Step == [rew |-> [e \in Env |-> Ev.rew[e]], done |-> [e \in Env |-> Ev.done[e]]]
 H1   == Append(hist, Step)
